@@ -364,6 +364,24 @@ static const uint8_t R[64] = {
 };
 
 
+/* The same patterns, but greatest (RH) and least (RL) code length reached
+   at any step of the pattern, not only at its end.  bzip2 checks the range
+   after every single step, so must we.  Biased by 3 like R[]. */
+static const uint8_t RH[64] = {
+  3, 3, 3, 3, 3, 3, 3, 3, 3, 3, 3, 3, 3, 3, 3, 3,
+  3, 3, 3, 3, 3, 3, 3, 3, 3, 3, 3, 3, 3, 3, 3, 3,
+  4, 4, 4, 4, 4, 4, 4, 4, 5, 5, 6, 5, 4, 4, 4, 4,
+  3, 3, 3, 3, 3, 3, 3, 3, 3, 3, 4, 3, 3, 3, 3, 3,
+};
+
+static const uint8_t RL[64] = {
+  3, 3, 3, 3, 3, 3, 3, 3, 3, 3, 3, 3, 3, 3, 3, 3,
+  3, 3, 3, 3, 3, 3, 3, 3, 3, 3, 3, 3, 3, 3, 3, 3,
+  3, 3, 3, 3, 3, 3, 3, 3, 3, 3, 3, 3, 3, 3, 3, 2,
+  2, 2, 2, 2, 2, 2, 2, 2, 2, 2, 2, 2, 1, 1, 1, 0,
+};
+
+
 #define DECLARE unsigned w; uint64_t v; const uint32_t *next, *limit,   \
                                           *tt_limit; uint32_t *tt
 #define SAVE() (bs->buff = v, bs->live = w, bs->data = next,    \
@@ -581,10 +599,10 @@ retrieve(struct decoder_state *restrict ds, struct bitstream *bs)
       while (rs->j < rs->alpha_size) {
         unsigned k = PEEK(6u);
 
-        rs->code_len[rs->j] += R[k];
-        if (unlikely(rs->code_len[rs->j] < 3 + MIN_CODE_LENGTH ||
-                     rs->code_len[rs->j] > 3 + MAX_CODE_LENGTH))
+        if (unlikely(rs->code_len[rs->j] + RL[k] < 3 + MIN_CODE_LENGTH ||
+                     rs->code_len[rs->j] + RH[k] > 3 + MAX_CODE_LENGTH))
           return ERR_DELTA;
+        rs->code_len[rs->j] += R[k];
         rs->code_len[rs->j] -= 3;
         k = L[k];
         if (k != 6u) {
